@@ -187,6 +187,24 @@ type c19MemParts struct {
 	failAt   int
 	together bool
 	reads    int
+	// gate: runs once inside the next PutPart/DeletePart of the inner store, either just BEFORE it takes
+	// effect ("before") or just AFTER it took effect but before it returns ("after"): a gated inner store.
+	gate    func()
+	gatePos string
+}
+
+func (s *c19MemParts) runGate(pos string) {
+	s.mu.Lock()
+	g := s.gate
+	if g != nil && s.gatePos == pos {
+		s.gate = nil
+	} else {
+		g = nil
+	}
+	s.mu.Unlock()
+	if g != nil {
+		g()
+	}
 }
 
 func (s *c19MemParts) Start(ctx context.Context) error { return nil }
@@ -196,9 +214,11 @@ func (s *c19MemParts) PutPart(ctx context.Context, tx database.Tx, id partstore.
 	if err != nil {
 		return err
 	}
+	s.runGate("before")
 	s.mu.Lock()
 	s.parts[id] = b
 	s.mu.Unlock()
+	s.runGate("after")
 	return nil
 }
 func (s *c19MemParts) GetPart(ctx context.Context, tx database.Tx, id partstore.PartId) (io.ReadCloser, error) {
@@ -219,9 +239,11 @@ func (s *c19MemParts) GetPartIds(ctx context.Context, tx database.Tx) ([]partsto
 	return nil, nil
 }
 func (s *c19MemParts) DeletePart(ctx context.Context, tx database.Tx, id partstore.PartId) error {
+	s.runGate("before")
 	s.mu.Lock()
 	delete(s.parts, id)
 	s.mu.Unlock()
+	s.runGate("after")
 	return nil
 }
 
@@ -649,6 +671,9 @@ func runC19PartSched(f *verifx.Flags, out *verifx.Out, k int, which int) {
 //   pgethalf <i>                  res half <desc of the half read> | res notfound | res err
 //   pdel <i>                      res ok|err
 //   pevict <i>                    res ok          (the cache entry of the part is evicted: cache.Remove)
+//   pdelw <i> <before|after>      res ok|err win=<bytes:desc|notfound|err>,<inner streams of the window read>
+//   pputw <i> <vid> <n> <before|after>   the same for PutPart: a complete GetPart of the id is served while the call is
+//                                 in flight at the (gated) inner store, just before / just after the inner store applied it
 // followed by `inner <reads>`: how many inner GetPart streams were opened by that call (0 = served from the cache).
 func runC19PartFault(f *verifx.Flags, out *verifx.Out, k int, seed uint64, pers, policy string, limit int64, maxPart int64, ops []string) {
 	ctx := context.Background()
@@ -681,7 +706,54 @@ func runC19PartFault(f *verifx.Flags, out *verifx.Out, k int, seed uint64, pers,
 					res = "res panic " + verifx.HexS(fmt.Sprint(r))
 				}
 			}()
+			win := ""
+			if t[0] == "pdelw" || t[0] == "pputw" {
+				pos := t[len(t)-1]
+				inner.mu.Lock()
+				inner.gatePos = pos
+				inner.gate = func() {
+					inner.mu.Lock()
+					r0 := inner.reads
+					inner.together = false
+					inner.mu.Unlock()
+					d := "err"
+					rc, err := ps.GetPart(ctx, nil, id(i))
+					if errors.Is(err, partstore.ErrPartNotFound) {
+						d = "notfound"
+					} else if err == nil {
+						b, rerr := io.ReadAll(rc)
+						if cerr := rc.Close(); rerr == nil && cerr == nil {
+							d = "bytes:" + c19Desc(b)
+						}
+					}
+					inner.mu.Lock()
+					win = fmt.Sprintf(" win=%s,%d", d, inner.reads-r0)
+					inner.reads = r0
+					inner.mu.Unlock()
+				}
+				inner.mu.Unlock()
+				defer func() {
+					inner.mu.Lock()
+					inner.gate = nil
+					inner.mu.Unlock()
+					res += win
+				}()
+			}
 			switch t[0] {
+			case "pputw":
+				fmt.Sscanf(t[2], "%d", &vid)
+				fmt.Sscanf(t[3], "%d", &n)
+				if err := ps.PutPart(ctx, nil, id(i), &c19Reader{data: c19Val(vid, n), failAt: -1}); err != nil {
+					res = "res err"
+				} else {
+					res = "res ok"
+				}
+			case "pdelw":
+				if err := ps.DeletePart(ctx, nil, id(i)); err != nil {
+					res = "res err"
+				} else {
+					res = "res ok"
+				}
 			case "pput", "pputfail":
 				fmt.Sscanf(t[2], "%d", &vid)
 				fmt.Sscanf(t[3], "%d", &n)
@@ -791,8 +863,16 @@ func c19GenPartFault(r *verifx.Rng, n int, maxSize int) []string {
 			ops = append(ops, fmt.Sprintf("pget %d %d %s", i, kk, verifx.Pick(r, []string{"sep", "tog"})))
 		case x < 68:
 			ops = append(ops, fmt.Sprintf("pget %d - %s", i, verifx.Pick(r, []string{"sep", "sep", "tog"})))
-		case x < 80:
+		case x < 74:
 			ops = append(ops, fmt.Sprintf("pevict %d", i))
+		case x < 77:
+			delete(size, i)
+			ops = append(ops, fmt.Sprintf("pdelw %d %s", i, verifx.Pick(r, []string{"before", "after"})))
+		case x < 80:
+			vid = vid%250 + 1
+			sz := 1 + r.Intn(maxSize)
+			size[i] = sz
+			ops = append(ops, fmt.Sprintf("pputw %d %d %d %s", i, vid, sz, verifx.Pick(r, []string{"before", "after"})))
 		case x < 88:
 			ops = append(ops, fmt.Sprintf("pgethalf %d", i))
 		default:
@@ -814,6 +894,10 @@ func c19DirectedPartFault() [][]string {
 			"pevict 0", "pget 0 31 tog", "pget 0 - sep", "pevict 0", "pget 0 32 sep", "pget 0 - tog", "pget 0 5 sep"},
 		{"pput 0 1 32", "pevict 0", "pgethalf 0", "pget 0 - sep", "pdel 0", "pget 0 - sep", "pputfail 0 2 10 5", "pget 0 - sep",
 			"pput 0 3 1", "pevict 0", "pget 0 0 tog", "pget 0 - sep", "pput 1 4 0", "pevict 1", "pget 1 0 sep", "pget 1 - sep"},
+		// DeletePart / PutPart with a GetPart served while the call is in flight at the gated inner store
+		{"pput 0 1 32", "pdelw 0 before", "pget 0 - sep", "pget 0 - sep", "pput 0 2 20", "pdelw 0 after", "pget 0 - sep",
+			"pput 0 3 10", "pevict 0", "pdelw 0 before", "pget 0 - sep", "pput 0 4 12", "pevict 0", "pdelw 0 after", "pget 0 - sep",
+			"pputw 0 5 8 before", "pget 0 - sep", "pputw 0 6 9 after", "pget 0 - sep", "pevict 0", "pputw 0 7 5 after", "pget 0 - sep", "pget 0 - sep"},
 	}
 }
 
